@@ -496,6 +496,15 @@ class Externals:
                     return
                 r = smt.fresh('woke', B)
                 ctx.assume(z3.Implies(evs.c['.'][obj], r))
+                if ('g', 'waits') in eng.schema.fields:
+                    items = args.items() if args.fixed_len() is not None else []
+                    tmo = items[0] if items else kwargs.get('timeout')
+                    if tmo is None:
+                        ctx.notes.append(('untimed-wait', obj, r))
+                    if tmo is not None and isinstance(tmo, S) and tmo.sort in ('R', 'I'):
+                        tt = tmo.t if tmo.sort == 'R' else z3.ToReal(tmo.t)
+                        lg = ctx.st.get('g', 'waits')
+                        ctx.st = ctx.st.set('g', 'waits', lg.log_append({'ev': obj, 'timeout': tt, 'woke': r}))
                 yield ctx, S(r)
         return gen()
 
@@ -778,6 +787,30 @@ def _str(eng, ctx, args, kwargs):
     yield ctx, S(r)
 
 
+@builtin('min')
+def _min(eng, ctx, args, kwargs):
+    a, b = args.items()
+    x, y = eng.num(ctx, a), eng.num(ctx, b)
+    if x is None or y is None:
+        raise Unsupported('min of non-numbers')
+    if x.sort() != y.sort():
+        x = z3.ToReal(x) if x.sort() == I else x
+        y = z3.ToReal(y) if y.sort() == I else y
+    yield ctx, S(z3.If(x <= y, x, y))
+
+
+@builtin('max')
+def _max(eng, ctx, args, kwargs):
+    a, b = args.items()
+    x, y = eng.num(ctx, a), eng.num(ctx, b)
+    if x is None or y is None:
+        raise Unsupported('max of non-numbers')
+    if x.sort() != y.sort():
+        x = z3.ToReal(x) if x.sort() == I else x
+        y = z3.ToReal(y) if y.sort() == I else y
+    yield ctx, S(z3.If(x >= y, x, y))
+
+
 @builtin('functools.partial')
 def _partial(eng, ctx, args, kwargs):
     items_front = args.segs[0].items if args.segs and isinstance(args.segs[0], Fixed) else None
@@ -835,6 +868,31 @@ def _iscoro(eng, ctx, args, kwargs):
 def _create_task(eng, ctx, args, kwargs):
     (x,) = args.items()
     eng.ext.note('R3: asyncio.create_task(coro) runs the coroutine at the point of creation; tasks start in creation order and a send does not suspend before queuing')
+    yield ctx, x
+
+
+@builtin('asyncio.wait_for')
+def _wait_for(eng, ctx, args, kwargs):
+    """R1: await asyncio.wait_for(E.wait(), T) == E.wait(timeout=T) returning on time, or asyncio.TimeoutError.
+    The inner E.wait() was already evaluated (it logged a wait without timeout); the result of that evaluation is the
+    outcome: truthy -> returns, falsy -> asyncio.TimeoutError."""
+    items = args.items()
+    x = items[0]
+    eng.ext.note('R1: asyncio.wait_for(E.wait(), T) behaves as E.wait(timeout=T): returns when the event is (or becomes) set, raises asyncio.TimeoutError otherwise')
+    tmo = items[1] if len(items) > 1 else kwargs.get('timeout')
+    if isinstance(x, S) and x.sort == 'B':
+        # patch the timeout into the wait that was just logged
+        if tmo is not None and ('g', 'waits') in eng.schema.fields and isinstance(tmo, S) and tmo.sort in ('R', 'I') and ctx.notes and ctx.notes[-1][0] == 'untimed-wait':
+            _, obj, r = ctx.notes.pop()
+            tt = tmo.t if tmo.sort == 'R' else z3.ToReal(tmo.t)
+            lg = ctx.st.get('g', 'waits')
+            ctx.st = ctx.st.set('g', 'waits', lg.log_append({'ev': obj, 'timeout': tt, 'woke': r}))
+        for c, woke in eng.branch(ctx, x.t):
+            if woke:
+                yield c, S(z3.BoolVal(True))
+            else:
+                yield c, Raised(Exc('asyncio.TimeoutError'))
+        return
     yield ctx, x
 
 
@@ -1181,6 +1239,13 @@ def m_set_add(ext, eng, ctx, base, args, kwargs):
     raise Unsupported('.add/.discard on %r' % (base,))
 
 
+def m_format(ext, eng, ctx, base, args, kwargs):
+    """str.format / str % args: an opaque string (used for log and error messages only)"""
+    r = smt.fresh('fmt', V)
+    ctx.assume(smt.kind(r) == smt.K_STR)
+    yield ctx, S(r)
+
+
 CONTAINER_METHODS = {'get': m_get, 'copy': m_copy, 'items': m_items, 'keys': m_keys, 'values': m_values,
                      'append': m_append, 'remove': m_remove, 'update': m_update, 'setdefault': m_setdefault,
-                     'pop': m_pop, 'union': m_union, 'add': m_set_add, 'discard': m_set_add}
+                     'pop': m_pop, 'union': m_union, 'add': m_set_add, 'discard': m_set_add, 'format': m_format}
